@@ -174,6 +174,21 @@ Theorem dns64_rfc_ttl_alone_refuted :
   /\ dns64_ttl None addrs consulted now = 3.
 Proof. exact dns64_rfc_alone_outlives_piece. Qed.
 
+(* The denial rung inside a request tree (RFC 8198 proof index / subtree cut,
+   Cache.lookupDenialProof / lookupNXDomainCut + boundRequestTo): a synthesised
+   denial is served strictly inside its lifetime, the tree stays bound by its
+   deadline whatever else is folded before or after, and every entry admitted
+   under the tree's bound (the alias that adopted the denial, anything re-cached
+   from that) ends with the denial. *)
+Theorem denial_rung_inherits :
+  forall m d lease now t,
+    cut_serve d now = Some t ->
+    now < d /\ 0 <= t /\ t * second <= d - now
+    /\ ole (denial_rung_bound m d lease) d
+    /\ mle (denial_rung_bound m d lease) m
+    /\ (forall e, e_cut e = denial_rung_bound m d lease -> entry_end e <= d).
+Proof. exact denial_rung_inherits_l. Qed.
+
 Print Assumptions no_service_past_end.
 Print Assumptions cut_no_service_past_end.
 Print Assumptions proof_no_service_past_end.
@@ -190,3 +205,4 @@ Print Assumptions cut_no_floor.
 Print Assumptions proof_no_floor.
 Print Assumptions dns64_composed_inherits_min.
 Print Assumptions dns64_rfc_ttl_alone_refuted.
+Print Assumptions denial_rung_inherits.
